@@ -169,6 +169,9 @@ func (f *e2FSM) Restore(rc io.ReadCloser) error {
 	f.swapIn()
 	defer f.swapOut()
 	f.n.run.count("fsm_restores", 1)
+	if f.n.aliveA.Load() {
+		f.n.run.count("fsm_restores_by_install_snapshot", 1) // on a serving follower, sent by the leader
+	}
 	return f.n.fsm.Restore(rc)
 }
 
@@ -1432,6 +1435,25 @@ func (e2Engine) Generate(seed uint64, prop, tier string) (json.RawMessage, error
 		nf = 0 // fault-free configuration
 	}
 	down := map[int]bool{}
+	if sc.Nodes == 3 && g.Chance(1, 8) {
+		// InstallSnapshot through raft: a follower is down while the others go on and snapshot with a short
+		// log tail; when it comes back the leader has to send its snapshot (FSM.Restore on a live follower).
+		// No other fault in these runs (a follower with a divergent tail behind a truncated leader log is a
+		// raft matter, see above).
+		sc.Trailing = g.Pick2(0, 1, 3)
+		t1 := int64(g.Range(2000, 8000))
+		sc.Steps = append(sc.Steps, e2Step{At: t1, K: "killfollower"})
+		t2 := t1 + int64(g.Range(3000, 9000))
+		sc.Steps = append(sc.Steps, e2Step{At: t2, K: "snapshotall"})
+		if g.Chance(1, 2) {
+			sc.Steps = append(sc.Steps, e2Step{At: t2 + int64(g.Range(1500, 4000)), K: "snapshotall"})
+		}
+		sc.Steps = append(sc.Steps, e2Step{At: t2 + int64(g.Range(4500, 9000)), K: "restartall"})
+		if sc.Duration < t2+12000 {
+			sc.Duration = t2 + 12000
+		}
+		nf = 0
+	}
 	for i := 0; i < nf; i++ {
 		at := int64(g.Range(500, int(sc.Duration)-2000))
 		n := g.Intn(sc.Nodes)
@@ -1533,6 +1555,30 @@ func (r *e2Run) doStep(st e2Step) {
 			r.tr.Log("kill n%d", n.idx)
 			n.kill()
 			r.count("kills", 1)
+		}
+	case "killfollower":
+		l := r.leader()
+		for _, n := range r.nodes {
+			if l != nil && n != l && n.aliveA.Load() {
+				r.tr.Log("kill follower n%d", n.idx)
+				n.kill()
+				r.count("kills", 1)
+				r.count("follower_kills_before_snapshots", 1)
+				break
+			}
+		}
+	case "snapshotall":
+		for _, n := range r.nodes {
+			if n.aliveA.Load() {
+				n := n
+				go func() {
+					ctx, cancel := context.WithTimeout(r.ctx, 20*time.Second)
+					defer cancel()
+					if code, _, _, err := r.request(ctx, n.idx, "GET", "/snapshot", basic(), ""); err == nil && code == 200 {
+						r.count("forced_snapshots", 1)
+					}
+				}()
+			}
 		}
 	case "killleader":
 		if n := r.leader(); n != nil {
